@@ -247,6 +247,8 @@ def make_subst(log):
             return bbox
         res, shape = kw.get("resolution"), kw.get("shape")
         try:
+            if shape is None and isinstance(res, (int, float)) and not isinstance(res, bool):
+                res = Resolution(float(res))
             if shape is None and isinstance(res, Resolution):
                 rx, ry = F(res.x), F(res.y)
                 if rx == 0 or ry == 0:
@@ -362,6 +364,8 @@ def base_sources():
     # no EPSG code: MODIS-like sinusoidal tile over central Australia (targets: custom Albers / LAEA, own CRS respelled)
     out.append(GeoBox(wh_(64, 64), Affine(512, 0, 12500000 + 0, 0, -512, -2500000), SINU))
     out.append(GeoBox(wh_(96, 64), Affine(256, 0, 300000, 0, -256, -3200000), AEA_CUSTOM))
+    # degree based, non-square pixels (degree -> degree targets keep the source's resolution pair)
+    out.append(GeoBox(wh_(256, 128), Affine(2.0 ** -9, 0, 10.0, 0, -(2.0 ** -8), 50.0), "EPSG:4258"))
     return out
 
 
@@ -371,6 +375,7 @@ TARGETS = {
     "EPSG:3577": ["EPSG:3577", "EPSG:6933", "EPSG:4326", "EPSG:32755"],
     "EPSG:3857": ["epsg:3857", "EPSG:6933", "EPSG:4326", "EPSG:32629"],
     "EPSG:32633": ["EPSG:32633", "EPSG:3857", "EPSG:4326", "EPSG:3035"],
+    "EPSG:4258": ["EPSG:4258", "EPSG:4326", "EPSG:3035", "EPSG:4283"],
 }
 
 RES_REQS = ["same", "auto", "fit", "bad", 32.0, 2.0 ** -8, [16.0, -8.0], [0.25, 0.5], -4.0]
@@ -470,7 +475,10 @@ def observe_case(src, scn, reg, out, via_to_crs=False):
             else:
                 snap = (F(float(v[0])), F(float(v[1])))
         if shp is None and res_kw is not None:
-            exact = exact_domain(Bf, F(res_kw.x), F(res_kw.y), snap)
+            if isinstance(res_kw, (int, float)):          # from_bbox applies res_(): square, y inverted
+                exact = exact_domain(Bf, F(float(res_kw)), -F(float(res_kw)), snap)
+            else:
+                exact = exact_domain(Bf, F(res_kw.x), F(res_kw.y), snap)
         elif isinstance(shp, int):
             if shp > 0:
                 sx, sy = Bf[2] - Bf[0], Bf[3] - Bf[1]
@@ -1170,6 +1178,10 @@ def search_sources(tier):
         ["EPSG:32633", "EPSG:3035", TMERC_CUSTOM])
     add("midedge-cm-albers", GeoBox.from_bbox([-1500000, -4000000, 1500000, -2000000], "EPSG:3577", resolution=100),
         ["EPSG:4326", "ESRI:54008"])
+    add("midedge-cm-4326-au", GeoBox.from_bbox([145.0, -38.0, 149.5, -34.5], "EPSG:4326", resolution=0.0005),
+        ["utm", "EPSG:32755", "EPSG:3577"])
+    add("midedge-cm-4326-1deg", GeoBox.from_bbox([14.4, 47.0, 15.7, 48.1], "EPSG:4326", resolution=0.0002),
+        ["utm", "EPSG:32633", "EPSG:3035"])
     # no EPSG code on source or target
     add("modis-sinu", GeoBox(wh_(1200, 1200), Affine(463.3127165, 0, 12500000.0, 0, -463.3127165, -2500000.0), SINU),
         [AEA_CUSTOM, SINU_RESPELLED, LAEA_CUSTOM, "EPSG:4326", "EPSG:3577"])
@@ -1181,7 +1193,16 @@ def search_sources(tier):
         add(f"rot{deg}-utm", GeoBox(wh_(300, 200), A, "EPSG:32633"), ["EPSG:4326", "EPSG:3857", "EPSG:32633", "utm"])
     A = Affine.translation(10.0, 50.0) * rot(25) * Affine.scale(0.001, -0.001)
     add("rot25-4326", GeoBox(wh_(400, 300), A, "EPSG:4326"), ["EPSG:3857", "EPSG:32632", "EPSG:3035", "EPSG:4326"])
-    add("south-up", GeoBox(wh_(200, 100), Affine(10, 0, 500000, 0, 10, 6000000), "EPSG:32633"), ["EPSG:4326", "EPSG:32633"])
+    add("south-up", GeoBox(wh_(200, 100), Affine(10, 0, 500000, 0, 10, 6000000), "EPSG:32633"),
+        ["EPSG:4326", "EPSG:32633", "EPSG:32632", "EPSG:3857"])
+    # non-square / south-up / x-mirrored pixels with same-units targets (metre -> metre, degree -> degree):
+    # the default resolution is the source's (x, y) pair, signs and all
+    add("non-square-10x20", GeoBox(wh_(300, 200), Affine(10, 0, 500000, 0, -20, 6000000), "EPSG:32633"),
+        ["EPSG:3035", "EPSG:32632", TMERC_CUSTOM])
+    add("non-square-deg", GeoBox(wh_(600, 400), Affine(0.001, 0, 148.0, 0, -0.002, -35.0), "EPSG:4326"),
+        ["EPSG:4283", "EPSG:4258", "EPSG:3577"])
+    add("south-up-deg", GeoBox(wh_(500, 400), Affine(0.001, 0, 10.0, 0, 0.001, 49.0), "EPSG:4326"), ["EPSG:4258", "EPSG:32632"])
+    add("flipx-deg", GeoBox(wh_(500, 400), Affine(-0.002, 0, 11.0, 0, -0.001, 50.0), "EPSG:4326"), ["EPSG:4258", "EPSG:3035"])
     add("flipx", GeoBox(wh_(200, 100), Affine(-10, 0, 502000, 0, -10, 6000000), "EPSG:32633"),
         ["EPSG:4326", "EPSG:3857", "EPSG:32633"])
     add("non-square", GeoBox(wh_(200, 300), Affine(20, 0, 500000, 0, -5, 6000000), "EPSG:32633"),
@@ -1373,10 +1394,10 @@ def search(out, tier):
         if "enclosure_margin_px" in facts and not isinstance(scn["shape"], list):
             margins.append((facts["enclosure_margin_px"] + scn["tol"], label, scn["crs"]))
         if "contract_margin_px" in facts and scn["shape"] is None and scn["resolution"] in ("auto", "fit") \
-                and not (scn["resolution"] == "auto" and label in ("non-square",)):
+                and not (scn["resolution"] == "auto" and label.startswith("non-square")):
             contract.append((facts["contract_margin_px"], label, scn["crs"]))
         for clause, detail in fails:
-            key = f"c11:{clause}"
+            key = f"c11:{'corpus:' if label.startswith('corpus:') else ''}{clause}"
             if key in found:
                 continue
             found[key] = True
@@ -1441,6 +1462,37 @@ def search(out, tier):
 
 
 # ------------------------------------------------------------------ entry points
+def correspondence(out, tier, scratch):
+    reg = Registry()
+    leaf = gen_leaf_cases(out, tier, reg)
+    utm = gen_utm_cases(out, tier, reg)
+    fpc = gen_footprint_cases(out, tier, reg)
+    outc, infos = gen_out_cases(out, tier, reg)
+    cases = leaf + utm + fpc + outc
+    fails, log = core.coq_eval_failures(REQ, "case", "check", cases, scratch, shard=250)
+    detail = ""
+    if fails:
+        detail = "model and implementation differ on: " + " | ".join(cases[i][:1500] for i in fails[:4])
+    out.oblige("correspondence:Model.OutGeobox vs odc.geo (overlap, geobox, math, crs)", "correspondence", not fails, detail)
+    # a disagreeing compute_output_geobox case is judged by the property predicate as well: if it violates the
+    # property the disagreement itself is the concrete replay
+    off = len(leaf) + len(utm) + len(fpc)
+    done = 0
+    for i in fails:
+        if i < off or done >= 12:
+            continue
+        info = infos[i - off]
+        done += 1
+        try:
+            ok, why = p_scenario(info["src"], info["scn"])
+        except Exception:  # noqa: BLE001
+            ok, why = True, ""      # error paths of the malformed stream are not property violations
+        if not ok:
+            out.violation("c11:correspondence-case", f"{info['src']} {info['scn']}: {why}",
+                          {"predicate": "scenario", "src": info["src"], "scn": info["scn"], "observed": why})
+            break
+
+
 def run(out, tier, scratch):
     out.rule = ("correspondence: (1) compute_output_geobox / GeoBox.to_crs on 4 real source grids x same CRS / same units / "
                 "different units targets x resolution modes x shape kinds x anchors x tight x tol x rounding hooks, with the "
@@ -1459,34 +1511,14 @@ def run(out, tier, scratch):
     ]
     run_histories(out, tier)          # first: nothing else has touched the CRS layer of this process yet
     run_held(out, tier)
-    reg = Registry()
-    leaf = gen_leaf_cases(out, tier, reg)
-    utm = gen_utm_cases(out, tier, reg)
-    fpc = gen_footprint_cases(out, tier, reg)
-    outc, infos = gen_out_cases(out, tier, reg)
-    cases = leaf + utm + fpc + outc
-    fails, log = core.coq_eval_failures(REQ, "case", "check", cases, scratch, shard=250)
-    detail = ""
-    if fails:
-        detail = "model and implementation differ on: " + " | ".join(cases[i][:1500] for i in fails[:4])
-    out.oblige("correspondence:Model.OutGeobox vs odc.geo (overlap, geobox, math, crs)", "correspondence", not fails, detail)
-    # a disagreeing compute_output_geobox case is judged by the property predicate as well: if it violates the
-    # property the disagreement itself is the concrete replay
-    off = len(leaf) + len(utm) + len(fpc)
-    done = 0
-    for i in fails:
-        if i < off or done >= 8:
-            continue
-        info = infos[i - off]
-        done += 1
-        try:
-            ok, why = p_scenario(info["src"], info["scn"])
-        except Exception as e:  # noqa: BLE001
-            ok, why = True, ""      # error paths of the malformed stream are not property violations
-        if not ok:
-            out.violation("c11:correspondence-case", f"{info['src']} {info['scn']}: {why}",
-                          {"predicate": "scenario", "src": info["src"], "scn": info["scn"], "observed": why})
-            break
+    try:
+        correspondence(out, tier, scratch)
+    except core.ModelEvalError as e:
+        out.oblige("model-evaluation", "correspondence", False, e.log)
+    except Exception:  # noqa: BLE001 - the search below still has to look for a concrete failing input
+        import traceback
+
+        out.oblige("correspondence:harness", "correspondence", False, traceback.format_exc())
     search(out, tier)
 
 
